@@ -111,6 +111,10 @@ def nCanonMono1 : NormId := ("attr", "@ = utils.canonicalize_monotonicity(_)")
 def nCanonTrust : NormId := ("attr", "@ = utils.canonicalize_trust(_)")
 def nCanonUni : NormId := ("attr", "@ = utils.canonicalize_unimodalities(_)")
 def nWrapSingle : NormId := ("attr", "if isinstance(_, tuple) and isinstance(_[0], int): @ = [_] else: @ = _")
+/-- the same wrap with the `and _` guard of `LatticeConstraints.__init__` (what `Lattice.__init__` reads after the
+repair proposed for F-C16-aj: an empty tuple is left alone instead of raising `IndexError`); `wrapSingle` models both
+(for the unguarded spelling an empty tuple raises: there is no object) -/
+def nWrapSingleG : NormId := ("attr", "if isinstance(_, tuple) and _ and isinstance(_[0], int): @ = [_] else: @ = _")
 def nLinearMono : NormId := ("attr", "if isinstance(_, list) or isinstance(_, tuple): @ = list(_) elif _ is not None: @ = [_] * self.num_input_dims else: @ = [0] * self.num_input_dims")
 def nFloatOr : NormId := ("attr", "if _ is None: @ = float(num_keypoints) else: @ = float(_)")
 
@@ -161,6 +165,7 @@ def valNorm (n : NormId) (o : String → Val) (v : Val) : Val :=
   -- the COMPOSITIONS (not the parts): `(0, 1)` alone is left a tuple by `asTuples`, `[(0, 1)]` after the wrap
   else if n = nWrapCanonTrust then orSelf v ((canonTrust (wrapSingle v)).map trustsVal)
   else if n = nWrapAsTuples then asTuples (wrapSingle v)
+  else if n = nWrapSingleG then wrapSingle v
   else v
 
 def valSem : Sem Val := ⟨valNorm, Val.truthy⟩
@@ -168,7 +173,7 @@ def valSem : Sem Val := ⟨valNorm, Val.truthy⟩
 /-- the modelled normaliser ids -/
 def modelledNorms : List NormId :=
   [idNorm, ("attr", "keras_base"), nCanonMono0, nCanonMono1, nCanonTrust, nCanonUni, nWrapSingle, nLinearMono, nFloatOr,
-   nAsTuples, nWrapCanonTrust, nWrapAsTuples]
+   nAsTuples, nWrapCanonTrust, nWrapAsTuples, nWrapSingleG]
 
 /-- composite normalisers that are NOT modelled: Keras' `serialize ∘ get` of initialisers /
 regularisers / layers / nested configs, and the wrap of a single joint-unimodality tuple (nesting
@@ -204,7 +209,12 @@ def opaqueNorms : List NormId := [
   ("keras.utils.legacy.serialize_keras_object(@)", "id"),
   -- `enum.Enum(member) = member` and `Enum(value) = member` (fix 07828c0): idempotent
   ("attr", "@ = pwl_calibration_lib.BoundConstraintsType(_)"),
-  ("serialize_keras_object_list", "nested_config_list")]
+  ("serialize_keras_object_list", "nested_config_list"),
+  -- `RTL.__init__` after the repair proposed for F-C11-i (repo_patches/F-C11-i.diff): a `None` seed is replaced by a
+  -- drawn integer BEFORE it is stored. Not a function of the argument (the draw); the object of the round-trip theorem
+  -- is the layer after construction, whose stored seed is an integer, and on integers the statement is the identity:
+  -- idempotent on its range, which is all `roundtrip` uses (it is applied to `get_config` values only).
+  ("attr", "if _ is None: _ = int(np.random.randint(0, 2 ** 31 - 1)); @ = _")]
 
 def okNorms : List NormId := modelledNorms ++ opaqueNorms
 
